@@ -236,3 +236,16 @@ package cisco
 // sits in a loop over the occurrences `acl` of the list `l`).
 //vc:func postprocessParsed
 //vc:  assert[C18] at "postprocessIOSACL(c)" @everyOccurrenceNormalised acl != nil && c != nil
+
+// IOS writes wildcard masks (0.0.0.0 = host, 255.255.255.255 = any), ASA writes
+// network masks (the other way round): the two normalisers must say which.
+//vc:func postprocessIOSACL
+//vc:  assert[C18] at "postprocessACLParts(c, parts" @iosUsesWildcardMasks arg2
+//vc:func postprocessASAACL
+//vc:  assert[C18] at "postprocessACLParts(c, parts" @asaUsesNetworkMasks !arg2
+// closure 6 of postprocessACLParts (addresses): "ADDR MASK" becomes `any` only
+// for the mask that means any in the dialect at hand, `host ADDR` only for the
+// mask that means host
+//vc:func postprocessACLParts$6
+//vc:  assert[C18] at "parts[0], parts[1] = "#1 @anyMaskOfDialect parts[1] == ite(wildcard, "255.255.255.255", "0.0.0.0")
+//vc:  assert[C18] at "parts[0], parts[1] = "#2 @hostMaskOfDialect parts[1] == ite(wildcard, "0.0.0.0", "255.255.255.255")
